@@ -116,6 +116,15 @@ def cmd_check(args, vx):
                     li = s["line_start"] - 1
                     if li < len(can.gen.lines) and "// CANARY" in can.gen.lines[li]:
                         failed_lines.add(li)
+            elif vx.classify(d) == "rlimit":
+                # the solver gave up on a query that contains canaries: they were not proved either
+                for s in d.get("spans", []):
+                    li = s["line_start"] - 1
+                    if li < len(can.gen.info) and can.gen.info[li].item is not None:
+                        it = can.gen.info[li].item
+                        for k, l in enumerate(can.gen.lines):
+                            if "// CANARY" in l and "assert(false)" in l and can.gen.info[k].item == it:
+                                failed_lines.add(k)
         canaries_total += n_can
         canaries_failed += len(failed_lines)
         if any(vx.classify(d) == "frontend" for d in can.diags) or (can.frontend_error and not can.diags):
